@@ -665,7 +665,14 @@ def drive(prop_id, tier, seed_value, only=None, jobs=None, scale=1.0,
             continue
         if any(fl[0] == sub.name for fl in failures):
             continue
+        # Floors were set to about half of the class fractions measured at a few seeds.  Hypothesis
+        # generates by mutating earlier examples, so the fractions of one run of a few hundred cases
+        # scatter far more than binomially (C10.align `accumulating`: 0.04 .. 0.33 over seven seeds
+        # against a floor of 0.05): a generator is called starved when a class falls below 40 % (quick)
+        # or 60 % (thorough) of its floor - starvation proper sends a class to (nearly) zero.
+        slack = 0.4 if tier == "quick" else 0.6
         for cname, frac in sub.floors.items():
+            frac = frac * slack
             got = s["classes"].get(cname, 0) / float(s["evaluations"])
             if got < frac:
                 starved.append("%s.%s: class %r %.4f < floor %.4f"
